@@ -578,7 +578,7 @@ func main() {
 	} else {
 		tp := tierParams{perDir: 12, modOwn: 50, modCross: 400, chunk: 300, modFields: 1, maxFields: 400, fieldPats: "zm", fieldsUnit: 1024, modTypes: 16, typesUnit: 4096, maxTypes: 400, modRuns: 1, runsUnit: 8192, runLens: "32768,65537", runFields: 12}
 		if cfg.Thorough() {
-			tp = tierParams{perDir: 60, modOwn: 6, modCross: 40, fullBelow: 400, chunk: 400, modFields: 1, maxFields: 2000, pairSeeds: true, fieldPats: "zo1ms", fieldsUnit: 1024, modTypes: 2, typesUnit: 8192, maxTypes: 3000, modRuns: 1, runsUnit: 16384, runLens: "512,4096,4097,32768,32769,65536,65537,524289", runFields: 16}
+			tp = tierParams{perDir: 60, modOwn: 6, modCross: 40, fullBelow: 400, chunk: 400, modFields: 1, maxFields: 2000, pairSeeds: true, fieldPats: "zo1ms", fieldsUnit: 1024, modTypes: 2, typesUnit: 8192, maxTypes: 3000, modRuns: 1, runsUnit: 16384, runLens: "4097,32768,32769,65537,524289", runFields: 12}
 		}
 		if v, err := strconv.Atoi(os.Getenv("VERIF_C06_MOD")); err == nil && v > 0 {
 			tp.modOwn = v
